@@ -31,12 +31,12 @@ theorem isInfix_tok_append (v out : Str) (hv : '$' ∉ v) (hne : v ≠ []) :
     | cons b v' => exact ih hv' (by simp)
 
 /-- replacement texts as `_var_repl_function` builds them: they begin with a blank and contain no `$` -/
-def GoodRepl (repl : Bool → Str → Option Str) : Prop :=
-  ∀ ls n v, repl ls n = some v → '$' ∉ v ∧ v.head? = some ' '
+def GoodRepl (repl : Str → Str → Bool → Str → Option Str) : Prop :=
+  ∀ a b ls n v, repl a b ls n = some v → '$' ∉ v ∧ v.head? = some ' '
 
 /-- **no_ref_survives.**  If every `${` of the cell opens a reference and every name resolves (the substitution
 succeeds), the result contains no `${` — for every cell text, any number of references. -/
-theorem no_ref_survives (repl : Bool → Str → Option Str) (hr : GoodRepl repl) :
+theorem no_ref_survives (repl : Str → Str → Bool → Str → Option Str) (hr : GoodRepl repl) :
     ∀ (fuel : Nat) (s out : Str), refsClosed fuel s = true → substRefs repl fuel s = some out →
       isInfix tok out = false ∧ (out.head? = some '{' → s.head? = some '{') := by
   intro fuel
@@ -60,7 +60,7 @@ theorem no_ref_survives (repl : Bool → Str → Option Str) (hr : GoodRepl repl
           obtain ⟨ls, name, rest⟩ := m
           rw [hm] at h hc
           simp only at h hc
-          cases hv : repl ls name with
+          cases hv : repl (c :: r) rest ls name with
           | none => rw [hv] at h; simp at h
           | some v =>
             cases ho : substRefs repl fuel rest with
@@ -69,7 +69,7 @@ theorem no_ref_survives (repl : Bool → Str → Option Str) (hr : GoodRepl repl
               rw [hv, ho] at h
               simp only [Option.some.injEq] at h
               subst h
-              obtain ⟨hd, hh⟩ := hr ls name v hv
+              obtain ⟨hd, hh⟩ := hr _ _ ls name v hv
               have hne : v ≠ [] := by intro e; simp [e] at hh
               have ih' := ih rest out' hc ho
               refine ⟨by rw [isInfix_tok_append v out' hd hne]; exact ih'.1, ?_⟩
@@ -150,11 +150,11 @@ theorem matchRef_lastSaved (name post : Str) (h1 : '}' ∉ name) (h2 : '\n' ∉ 
 
 /-- **ref_found.**  Text without `$`, then `${name}`: the scan copies the text, replaces the reference by what
 `repl` gives for `name` and goes on behind the `}` — so every well-formed occurrence is found and substituted. -/
-theorem ref_found (repl : Bool → Str → Option Str) (pre name post : Str) (fuel : Nat)
+theorem ref_found (repl : Str → Str → Bool → Str → Option Str) (pre name post : Str) (fuel : Nat)
     (hpre : '$' ∉ pre) (h1 : '}' ∉ name) (h2 : '\n' ∉ name)
     (hls : startsWith (name ++ '}' :: post) Chan.lastSavedTag = false) :
     substRefs repl (pre.length + fuel + 1) (pre ++ '$' :: '{' :: (name ++ '}' :: post)) =
-      (match repl false name, substRefs repl fuel post with
+      (match repl ('$' :: '{' :: (name ++ '}' :: post)) post false name, substRefs repl fuel post with
        | some v, some out => some (pre ++ (v ++ out))
        | _, _ => none) ∧
     findRefs (pre.length + fuel + 1) (pre ++ '$' :: '{' :: (name ++ '}' :: post)) = (false, name) :: findRefs fuel post := by
@@ -164,7 +164,7 @@ theorem ref_found (repl : Bool → Str → Option Str) (pre name post : Str) (fu
     constructor
     · rw [substRefs]
       simp only [List.head?_cons, and_self, ↓reduceIte, List.tail_cons, matchRef_plain name post h1 h2 hls]
-      cases repl false name <;> cases substRefs repl fuel post <;> rfl
+      cases repl ('$' :: '{' :: (name ++ '}' :: post)) post false name <;> cases substRefs repl fuel post <;> rfl
     · rw [findRefs]
       simp only [List.head?_cons, and_self, ↓reduceIte, List.tail_cons, matchRef_plain name post h1 h2 hls]
   | cons c r ih =>
@@ -174,14 +174,14 @@ theorem ref_found (repl : Bool → Str → Option Str) (pre name post : Str) (fu
     have hcond : ¬ (c = '$' ∧ (r ++ '$' :: '{' :: (name ++ '}' :: post)).head? = some '{') := fun h => hc h.1
     constructor
     · rw [hlen, List.cons_append, substRefs, if_neg hcond, ih'.1]
-      cases repl false name <;> cases substRefs repl fuel post <;> rfl
+      cases repl ('$' :: '{' :: (name ++ '}' :: post)) post false name <;> cases substRefs repl fuel post <;> rfl
     · rw [hlen, List.cons_append, findRefs, if_neg hcond, ih'.2]
 
 /-! ### non-vacuity -/
 
 example : refsClosed 100 "${a} + ${last-saved#b} $ {x".toList = true := by decide
 example : findRefs 100 "${a} + ${last-saved#b} $ {x".toList = [(false, "a".toList), (true, "b".toList)] := by decide
-example : substRefs (fun ls n => some (' ' :: (if ls then "LS:".toList else []) ++ n ++ [' '])) 100
+example : substRefs (fun _ _ ls n => some (' ' :: (if ls then "LS:".toList else []) ++ n ++ [' '])) 100
     "${a} + ${last-saved#b}".toList = some " a  +  LS:b ".toList := by decide
 example : refsClosed 100 "${a = 1".toList = false := by decide
 example : insertXpaths exEls (some exC) {} "${t} + ${t2}".toList = some " ../../../abcde_r2/t  +  /data/t2 ".toList := by
